@@ -144,12 +144,12 @@ func ReadCommon(path string) *Common {
 				End   int `json:"end"`
 			} `json:"groups"`
 		} `json:"selectors_info"`
-		QDF   int      `json:"quotient_degree_factor"`
-		NGC   int      `json:"num_gate_constraints"`
-		NC    int      `json:"num_constants"`
-		NPI   int      `json:"num_public_inputs"`
-		KIs   []uint64 `json:"k_is"`
-		NPP   int      `json:"num_partial_products"`
+		QDF int      `json:"quotient_degree_factor"`
+		NGC int      `json:"num_gate_constraints"`
+		NC  int      `json:"num_constants"`
+		NPI int      `json:"num_public_inputs"`
+		KIs []uint64 `json:"k_is"`
+		NPP int      `json:"num_partial_products"`
 	}
 	if err := json.Unmarshal(b, &raw); err != nil {
 		panic(err)
@@ -263,8 +263,8 @@ func ParseProof(b []byte) *Proof {
 // ---- gate identifiers ----
 
 type GateSpec struct {
-	Type   string // Arithmetic, ArithmeticExtension, BaseSum, Constant, CosetInterpolation, Exponentiation, MulExtension, Noop, Poseidon, PoseidonMds, PublicInput, RandomAccess, Reducing, ReducingExtension
-	Params map[string]uint64
+	Type    string // Arithmetic, ArithmeticExtension, BaseSum, Constant, CosetInterpolation, Exponentiation, MulExtension, Noop, Poseidon, PoseidonMds, PublicInput, RandomAccess, Reducing, ReducingExtension
+	Params  map[string]uint64
 	Weights []F
 }
 
